@@ -424,7 +424,7 @@ func (v *vdrRun) checkNewForks() {
 	if v.knownForks == nil {
 		v.knownForks = map[string]bool{}
 		for i := range views {
-			v.knownForks[views[i].Fqname] = true
+			v.knownForks[fmt.Sprint(views[i].Node, "#", views[i].Index)] = true
 		}
 		return
 	}
@@ -433,10 +433,12 @@ func (v *vdrRun) checkNewForks() {
 	}
 	for i := range views {
 		f := &views[i]
-		if v.knownForks[f.Fqname] {
+		// (a fork is identified by its position: its name changes when its fork id is resolved)
+		key := fmt.Sprint(f.Node, "#", f.Index)
+		if v.knownForks[key] {
 			continue
 		}
-		v.knownForks[f.Fqname] = true
+		v.knownForks[key] = true
 		init, ok := v.initView[f.Node]
 		if !ok {
 			continue
@@ -444,7 +446,16 @@ func (v *vdrRun) checkNewForks() {
 		v.hist("dynamic-fork-first-seen")
 		if got, want := vdrTablesOf(f), vdrTablesOf(&init); got != want {
 			v.violate("C04", "correspondence", "C04:model:clone-moment",
-				fmt.Sprintf("fork %s, made by dynamic fork expansion, does not start with the bookkeeping its node was built with: %s, built %s", f.Fqname, got, want), nil)
+				fmt.Sprintf("fork %s, made by dynamic fork expansion, does not start with the bookkeeping its node was built with: %s, built %s", f.Fqname, got, want),
+				map[string]interface{}{"event": len(v.r.Events), "state": f.State, "siblings": func() map[string]string {
+					o := map[string]string{}
+					for j := range views {
+						if views[j].Node == f.Node {
+							o[views[j].Fqname] = string(views[j].State) + " " + vdrTablesOf(&views[j])
+						}
+					}
+					return o
+				}()})
 		}
 	}
 }
